@@ -107,6 +107,23 @@ def concs(n, rnd, dask_ok=True):
     return out
 
 
+def unit_twins(cs, k=2):
+    """For up to k concretisations whose frequency units are all kHz / MHz / GHz: a twin with the SAME numbers in
+    the next smaller units (1.4 GHz / 1 MHz -> 1.4 MHz / 1 kHz).  Within one process the twins visit the same
+    geometries, so anything remembered under the bare numbers (units dropped) is exposed."""
+    down = {u.GHz: u.MHz, u.MHz: u.kHz, u.kHz: u.Hz}
+    out = []
+    for c in cs:
+        if len(out) >= k:
+            break
+        if c.runit in down and c.funit in down and c.cbw[1] in down and c.cf != 0:
+            t = copy.copy(c)
+            t.runit, t.funit, t.cbw = down[c.runit], down[c.funit], (c.cbw[0], down[c.cbw[1]])
+            t.name = c.name + ",unit-twin(%s,%s,%s)" % (t.runit, t.funit, t.cbw[1])
+            out.append(t)
+    return out
+
+
 def ident(n, nchan, extra):
     """Identifier array: value at (i, c, e...) = i*10000 + c*100 + e_flat (exact in float32 for i < 1600)."""
     shape = (n,) + ((nchan,) if nchan else ()) + tuple(extra)
